@@ -534,74 +534,52 @@ Proof.
 Qed.
 
 (* ------------------------------------------------------------------ boundary edges (3-D) *)
-Lemma facet_pairs_spec facets bf c :
-  In c (facet_pairs facets bf) <->
-  exists itr f, itr < length (hd [] facets) /\ In f bf /\
-    c = isort [nth itr (nth f facets []) 0; nth ((itr + 1) mod length (hd [] facets)) (nth f facets []) 0].
+Theorem boundary_edges_spec facet_idx edge_idx t2f t2e f2t g :
+  In g (boundary_edges facet_idx edge_idx t2f t2e f2t) <->
+  exists f es s, In f (boundary_facets f2t) /\ es < length edge_idx /\ s < length facet_idx /\
+    nth (Z.to_nat (row0 f2t f)) (nth s t2f []) 0 = f /\
+    subset (nth es edge_idx []) (nth s facet_idx []) = true /\
+    g = nth (Z.to_nat (row0 f2t f)) (nth es t2e []) 0.
 Proof.
-  unfold facet_pairs. rewrite in_flat_map. split.
-  - intros [itr [Hi Hc]]. apply in_seq in Hi. apply in_map_iff in Hc. destruct Hc as [f [Hc Hf]].
-    exists itr, f. repeat split; [lia | exact Hf | now symmetry].
-  - intros [itr [f [Hi [Hf Hc]]]]. exists itr. split; [apply in_seq; lia|].
-    apply in_map_iff. exists f. split; [now symmetry | exact Hf].
+  unfold boundary_edges. rewrite (uniq_in _ Nat.compare nat_cmp_eq), in_flat_map. fold (row0 f2t). split.
+  - intros [f [Hf Hg]]. apply in_flat_map in Hg. destruct Hg as [es [Hes Hg]]. apply in_seq in Hes.
+    fold (row0 f2t f) in Hg.
+    destruct (existsb _ _) eqn:Ex in Hg; [|destruct Hg].
+    destruct Hg as [Hg|[]]. apply existsb_exists in Ex. destruct Ex as [s [Hs Hc]]. apply in_seq in Hs.
+    apply andb_true_iff in Hc. destruct Hc as [Hc1 Hc2]. apply Nat.eqb_eq in Hc1.
+    exists f, es, s. repeat split; try assumption; try lia; try (now symmetry).
+  - intros [f [es [s [Hf [Hes [Hs [Hc1 [Hc2 Hg]]]]]]]]. exists f. split; [exact Hf|].
+    apply in_flat_map. exists es. split; [apply in_seq; lia|]. fold (row0 f2t f).
+    assert (Ex : existsb (fun s0 => (nth (Z.to_nat (row0 f2t f)) (nth s0 t2f []) 0 =? f)
+                                     && subset (nth es edge_idx []) (nth s0 facet_idx [])) (seq 0 (length facet_idx)) = true).
+    { apply existsb_exists. exists s. split; [apply in_seq; lia|]. apply andb_true_iff. split; [now apply Nat.eqb_eq | exact Hc2]. }
+    rewrite Ex. left. now symmetry.
 Qed.
 
-(* the edges returned are exactly the candidate edges whose vertex pair is a pair of consecutive vertices
-   of a boundary facet; they come out strictly increasing *)
-Theorem boundary_edges_spec facets edges t2e f2t g :
-  In g (boundary_edges facets edges t2e f2t) <->
-  (exists row f, In row t2e /\ In f (boundary_facets f2t) /\ g = nth (Z.to_nat (row0 f2t f)) row 0) /\
-  In (nth g edges []) (facet_pairs facets (boundary_facets f2t)).
-Proof.
-  unfold boundary_edges. rewrite filter_In, (memb_in _ lex_cmp lex_cmp_eq), (uniq_in _ Nat.compare nat_cmp_eq).
-  rewrite in_flat_map. split; intros [H1 H2]; (split; [|exact H2]).
-  - destruct H1 as [row [Hr Hg]]. apply in_map_iff in Hg. destruct Hg as [e [Hg He]].
-    apply in_map_iff in He. destruct He as [f [He Hf]]. exists row, f. subst. now repeat split.
-  - destruct H1 as [row [f [Hr [Hf Hg]]]]. exists row. split; [exact Hr|].
-    apply in_map_iff. exists (Z.to_nat (row0 f2t f)). split; [now symmetry|].
-    apply in_map_iff. exists f. now split.
-Qed.
+Theorem boundary_edges_sorted facet_idx edge_idx t2f t2e f2t :
+  StronglySorted (lt Nat.compare) (boundary_edges facet_idx edge_idx t2f t2e f2t).
+Proof. unfold boundary_edges. apply (uniq_strongly_sorted _ Nat.compare nat_cmp_antisym nat_cmp_trans). Qed.
 
-Theorem boundary_edges_sorted facets edges t2e f2t :
-  StronglySorted (lt Nat.compare) (boundary_edges facets edges t2e f2t).
+(* Mesh level: the boundary edges are EXACTLY the numbers t2e[es][e] of the local edges es of a cell e that lie in a local
+   facet s (edge slot contained in facet slot) whose facet t2f[s][e] has a single neighbour *)
+Theorem boundary_edges_exact cells facet_idx edge_idx g :
+  0 < length cells -> 0 < length facet_idx -> slots_injective cells facet_idx ->
+  (In g (boundary_edges facet_idx edge_idx (mapping cells facet_idx) (mapping cells edge_idx) (f2t_of cells facet_idx)) <->
+   exists f e s es, f < length (entities true cells facet_idx) /\ row1 (f2t_of cells facet_idx) f = (-1)%Z /\
+     e < length cells /\ s < length facet_idx /\ es < length edge_idx /\
+     t2f_at cells facet_idx s e = f /\ subset (nth es edge_idx []) (nth s facet_idx []) = true /\
+     t2f_at cells edge_idx es e = g).
 Proof.
-  unfold boundary_edges. apply strongly_sorted_filter.
-  apply (uniq_strongly_sorted _ Nat.compare nat_cmp_antisym nat_cmp_trans).
-Qed.
-
-(* Mesh level.  H3 ("consecutive vertices of a boundary facet column span an edge of the cell behind it")
-   is the assumption the code makes on the facet array: true for sorted triangular facets and for the
-   cyclic quadrilateral facets of hexahedra, FALSE for row-sorted quadrilateral facets (wedges). *)
-Theorem boundary_edges_exact sortf cells facet_idx edge_idx g :
-  let fac := entities sortf cells facet_idx in
-  let edg := entities true cells edge_idx in
-  let t2e := mapping cells edge_idx in
-  let f2t := f2t_of cells facet_idx in
-  0 < length cells -> 0 < length facet_idx ->
-  (forall f itr, In f (boundary_facets f2t) -> itr < length (hd [] fac) ->
-     exists s, s < length edge_idx /\
-       key cells edge_idx s (Z.to_nat (row0 f2t f)) =
-       isort [nth itr (nth f fac []) 0; nth ((itr + 1) mod length (hd [] fac)) (nth f fac []) 0]) ->
-  g < length edg ->
-  (In g (boundary_edges fac edg t2e f2t) <->
-   exists f itr, In f (boundary_facets f2t) /\ itr < length (hd [] fac) /\
-     nth g edg [] = isort [nth itr (nth f fac []) 0; nth ((itr + 1) mod length (hd [] fac)) (nth f fac []) 0]).
-Proof.
-  intros fac edg t2e f2t Hnt Hns H3 Hg. rewrite boundary_edges_spec, facet_pairs_spec. split.
-  - intros [_ [itr [f [Hi [Hf Hc]]]]]. exists f, itr. now repeat split.
-  - intros [f [itr [Hf [Hi Hc]]]]. split; [|exists itr, f; now repeat split].
-    destruct (H3 f itr Hf Hi) as [s [Hs Hk]].
-    (* the cell behind f *)
-    assert (Hfl : f < length (entities true cells facet_idx)).
-    { apply boundary_facets_spec in Hf. destruct Hf as [Hf _].
-      destruct (f2t_shape cells facet_idx Hnt Hns) as [_ [_ L1]]. unfold f2t, f2t_of in *. now rewrite L1 in Hf. }
-    destruct (f2t_sound cells facet_idx f Hfl) as [e0 [He0 [R0 _]]].
-    fold f2t in R0. rewrite R0, Nat2Z.id in Hk.
-    exists (nth s t2e []), f. split; [|split; [exact Hf|]].
-    + apply nth_In. unfold t2e. now rewrite (proj1 (mapping_shape cells edge_idx)).
-    + rewrite R0, Nat2Z.id. fold (t2f_at cells edge_idx s e0).
-      pose proof (t2f_slotwise cells edge_idx s e0 Hs He0) as Hslot. fold edg in Hslot.
-      rewrite Hk, <- Hc in Hslot.
-      destruct (entities_unique_sorted cells edge_idx) as [_ [Hnd _]]. fold edg in Hnd.
-      apply (proj1 (NoDup_nth edg []) Hnd); [exact Hg | apply t2f_bound; assumption | now symmetry].
+  intros Hnt Hns Hinj. rewrite boundary_edges_spec.
+  destruct (f2t_shape cells facet_idx Hnt Hns) as [_ [_ L1]]. split.
+  - intros [f [es [s [Hf [Hes [Hs [Hc1 [Hc2 Hg]]]]]]]]. apply boundary_facets_spec in Hf. destruct Hf as [Hfl Hm1].
+    rewrite L1 in Hfl. destruct (f2t_sound cells facet_idx f Hfl) as [e0 [He0 [R0 _]]].
+    rewrite R0, Nat2Z.id in Hc1, Hg. exists f, e0, s, es. repeat split; try assumption. now symmetry.
+  - intros [f [e [s [es [Hfl [Hm1 [He [Hs [Hes [Hc1 [Hc2 Hg]]]]]]]]]]].
+    destruct (f2t_sound cells facet_idx f Hfl) as [e0 [He0 [R0 [C0 _]]]].
+    assert (Ce : contains cells facet_idx f e) by (exists s; now split).
+    assert (Heq : e = e0) by (apply (proj1 (f2t_boundary_iff cells facet_idx f Hinj Hfl) Hm1); assumption).
+    subst e0. exists f, es, s. rewrite R0, Nat2Z.id. repeat split; try assumption.
+    + apply boundary_facets_spec. split; [now rewrite L1 | exact Hm1].
+    + now symmetry.
 Qed.
